@@ -237,5 +237,32 @@ func ColdOpenStorm(tmp string, disk bool, goroutines, rounds int, r *rng.R) (ops
 		}
 		b.Close(ctx)
 	}
+	// and it must be possible to delete it: the handles that lost the open races must not have left anything open
+	// that keeps files in the bucket's directory
+	if b, err := rosmar.OpenBucket(url, name, rosmar.CreateOrOpen); err == nil {
+		var derr error
+		func() {
+			defer func() {
+				if p := recover(); p != nil {
+					derr = fmt.Errorf("panic: %v", p)
+				}
+			}()
+			derr = b.CloseAndDelete(ctx)
+		}()
+		if derr != nil {
+			add(fmt.Sprintf("delete|after the storm CloseAndDelete fails: %v", derr))
+		} else if dir != "" {
+			if _, serr := os.Stat(dir); serr == nil {
+				add("delete|after the storm CloseAndDelete returned nil but the bucket's directory is still there")
+			} else if nb, cerr := rosmar.OpenBucket(url, name, rosmar.CreateNew); cerr != nil {
+				add(fmt.Sprintf("delete|after the storm and CloseAndDelete, CreateNew fails: %v", cerr))
+			} else {
+				if _, gerr := safeGet(dsOf(nb), "seed"); gerr == nil {
+					add("delete|the bucket created after CloseAndDelete still holds the old data")
+				}
+				_ = nb.CloseAndDelete(ctx)
+			}
+		}
+	}
 	return ops, problems
 }
